@@ -179,7 +179,8 @@ def c05_fva_thorough(E):
 
 
 def c05_pfba_factor(E):
-    return c05_fva(E, templates=(("T2", 2), ("T3", 2)), fractions=(1, Fraction(1, 2)), pfba=(1, Fraction(11, 10)))
+    # fraction 0 with bounds that allow the all-zero distribution: the parsimonious optimum is 0 and so is the cap
+    return c05_fva(E, templates=(("T2", 2), ("T3", 2)), fractions=(1, Fraction(1, 2), 0), pfba=(1, Fraction(11, 10)))
 
 
 def c05_pfba_factor_thorough(E):
@@ -196,7 +197,7 @@ def elementary_cycles(m):
     internal = [r for r in m.reactions if not r.boundary]
     mets = list(m.metabolites)
     cycles = []
-    for k in range(2, len(internal) + 1):
+    for k in range(1, len(internal) + 1):      # k = 1: a reaction without metabolites is a cycle by itself
         for sub in itertools.combinations(internal, k):
             if any(set(c) <= set(r.id for r in sub) for c in cycles):
                 continue
@@ -225,7 +226,11 @@ def c05_loopless(E, templates=(("T3", ("R2",)), ("T3", ("R1",)), ("T10", ("R3",)
     obj = networks.T[tid]["objectives"][0]
     networks.symbolic_bounds(E, m, which=list(which), delta=0.01)
     m.objective = {m.reactions.get_by_id(r): c for r, c in obj.items()}
-    E.note(template=tid, symbolic=list(which))
+    lone = E.flag("with_a_reaction_without_metabolites")
+    if lone:
+        from cobra import Reaction
+        m.add_reactions([Reaction("EMPTY", lower_bound=-5, upper_bound=10)])     # a closed internal cycle by itself
+    E.note(template=tid, symbolic=list(which), empty_reaction=lone)
     status, opt, setp = oracle_set(E, m, obj, "max", 1)
     if status != "optimal":
         return
@@ -235,7 +240,7 @@ def c05_loopless(E, templates=(("T3", ("R2",)), ("T3", ("R1",)), ("T10", ("R3",)
     w0 = lp.fresh_point(E, "cf0")
     if not E.exists_fork(list(w0.values()), z3.And(P(w0), cycle_free(cycles, w0)), name="cycle_free_point_exists"):
         return
-    ids = [r.id for r in m.reactions if not r.boundary][:2]
+    ids = [r.id for r in m.reactions if not r.boundary][:2] + (["EMPTY"] if lone else [])
     before = observe(m)
     try:
         plain = flux_variability_analysis(m, reaction_list=ids, processes=1)
